@@ -14,11 +14,13 @@ from ebpfcat.xdp import XDP, PacketVar, XDPExitCode  # noqa: E402
 PROPERTY = "C07"
 LEVEL = "exploration"
 RULE = ("seeded random XDP programs with a static minimumPacketSize G or a "
-        "dynamic `with packetSize > G` guard and 1-4 packet accesses "
+        "dynamic guard in each spelling (`packetSize > G`, `>= G+1`, and "
+        "the too-short forms `< G+1`, `<= G` with the body in the Else "
+        "branch) and 1-4 packet accesses "
         "(PacketVar(p, fmt) for fmt in BHIQbhiq x byte order native < > !, "
         "packet arrays pB/pH/pI/pQ[p]; read into an 8-byte map variable, "
-        "write of a constant / a map variable / an expression, in-place "
-        "update) with p+size <= G; each run on packets of every length in "
+        "write of a constant / a map variable / an expression / a bare "
+        "register that is stored twice and read back, in-place update) with p+size <= G; each run on packets of every length in "
         "[max(14,G-6), G+6] plus large ones with random contents, in the "
         "kernel (authority) and the reference machine (byte-level store "
         "events); a case = (program, packet); non-trivial = the body ran and "
@@ -59,7 +61,7 @@ def gen_case(rng):
             kind = "var"
             fmt = rng.choice(ORDERS) + letter
         op = rng.choice(["read", "read", "wconst", "wvar", "wexpr", "iadd",
-                         "isub"])
+                         "isub", "wreg"])
         val = rng.getrandbits(8 * size)
         if rng.random() < 0.3:
             val = rng.choice([0, 1, (1 << (8 * size)) - 1,
@@ -71,6 +73,7 @@ def gen_case(rng):
         [n for n in range(max(14, G - 6), G + 7)] +
         [rng.randint(G + 7, G + 300), 1400]))
     return dict(G=G, dynamic=dynamic, acc=acc, lens=lens,
+                form=rng.choice(["gt", "gt", "ge", "lt", "le"]),
                 pktseed=rng.getrandbits(32))
 
 
@@ -84,6 +87,7 @@ def build(case):
     ns = {"license": "GPL", "m": ArrayMap()}
     m = ns["m"]
     ns["mark"] = m.globalVar("B")
+    ns["short"] = m.globalVar("B")
     if not case["dynamic"]:
         ns["minimumPacketSize"] = G
     for i, a in enumerate(case["acc"]):
@@ -122,6 +126,19 @@ def build(case):
                 put(inp)
             elif a["op"] == "wexpr":
                 put(inp + 1)
+            elif a["op"] == "wreg":
+                # a bare register stored twice and read back afterwards:
+                # the store must not change the register
+                if letter.islower():
+                    self.sr6 = inp
+                    put(self.sr6)
+                    setattr(self, f"o{i}", self.sr6)
+                    put(self.sr6)
+                else:
+                    self.r6 = inp
+                    put(self.r6)
+                    setattr(self, f"o{i}", self.r6)
+                    put(self.r6)
             elif a["op"] == "iadd":
                 x = get()
                 x += a["amount"]
@@ -132,9 +149,20 @@ def build(case):
                 put(x)
         self.exit(XDPExitCode.TX)
 
-    if case["dynamic"]:
+    form = case.get("form", "gt")
+    if case["dynamic"] and form in ("lt", "le"):
+        # "packet is too short" guard; the body sits in its Else branch
         def program(self):
-            with self.packetSize > G as pk:
+            with (self.packetSize < G + 1 if form == "lt"
+                  else self.packetSize <= G) as pk:
+                self.short = 1
+            with pk.Else:
+                body(self, pk)
+            self.exit(XDPExitCode.PASS)
+    elif case["dynamic"]:
+        def program(self):
+            with (self.packetSize > G if form == "gt"
+                  else self.packetSize >= G + 1) as pk:
                 body(self, pk)
             self.exit(XDPExitCode.PASS)
     else:
@@ -168,6 +196,12 @@ def expected(case, pkt):
             out[a["p"]:a["p"] + size] = enc(a["val"])
         elif a["op"] == "wvar":
             out[a["p"]:a["p"] + size] = enc(a["val"])
+        elif a["op"] == "wreg":
+            out[a["p"]:a["p"] + size] = enc(a["val"])
+            v = a["val"] & mask
+            if letter.islower():
+                v = to_signed(v, size)
+            outs[i] = v & ((1 << 64) - 1)
         elif a["op"] == "wexpr":
             out[a["p"]:a["p"] + size] = enc(a["val"] + 1)
         elif a["op"] == "iadd":
@@ -265,7 +299,9 @@ def check_case(case, res, use_v=True):
                     res.count("cmp[" + classify(case, i) + "]")
                     if outs_k[i] != v:
                         res.violation(
-                            key_for(case, i, "read"),
+                            key_for(case, i, "read")
+                            if case["acc"][i]["op"] == "read" else
+                            "register-changed-by-packet-store",
                             f"read #{i} {case['acc'][i]} gave "
                             f"{outs_k[i]:#x}, struct.unpack gives {v:#x}",
                             case=desc, witness=dict(
@@ -286,7 +322,7 @@ def check_case(case, res, use_v=True):
                         case=desc, witness=dict(
                             disasm=ebpfvm.disasm(ld.code)[:80]))
                 for i, a in enumerate(case["acc"]):
-                    if a["op"] != "read":
+                    if a["op"] not in ("read", "wreg"):
                         res.count("cmp[" + classify(case, i) + "]")
                 if use_v and n in (G + 1, case["lens"][-1]):
                     m[:] = img
@@ -347,7 +383,8 @@ def finalize(res, tier, seed):
     c = res.counters
     missing = []
     for kind in ("var", "arr"):
-        for op in ("read", "wconst", "wvar", "wexpr", "iadd", "isub"):
+        for op in ("read", "wconst", "wvar", "wexpr", "iadd", "isub",
+                   "wreg"):
             if not any(k.startswith(f"cmp[{kind}/{op}/") for k in c):
                 missing.append(f"{kind}/{op}")
     for sw in ("swapped", "native"):
